@@ -27,7 +27,7 @@ def scenarios(tier):
     nmax, mmax, depth = (3, 2, 3) if tier == "quick" else (4, 3, 4)
     out = []
     for n in range(0, nmax + 1):
-        for op in ("append_scalar", "append_array", "append_default", "kill_compactify", "setitem", "bad_name", "bad_shape"):
+        for op in ("append_scalar", "append_array", "append_default", "kill_compactify", "setitem", "bad_name", "bad_shape", "bad_ndim"):
             out.append(dict(name=f"step-{op}-n{n}", fn="step", params=dict(n=n, op=op, mmax=mmax), cost=n + 1))
     out.append(dict(name=f"seq-d{depth}", fn="seq", params=dict(depth=depth), cost=50))
     return out
@@ -154,6 +154,9 @@ def step(W, p):
     try:
         if op == "bad_name":
             S.append(X=W.real("bx"), Y=1, Z=1, nosuch=3)
+        elif op == "bad_ndim":
+            # arguments that broadcast to a 2-D shape are rejected ("Arguments must be 1D or scalar")
+            S.append(X=W.arr_nd([[W.real("bx0"), W.real("bx1")], [W.real("bx2"), W.real("bx3")]], "f"), Y=1, Z=0)
         else:
             S.append(X=W.arr([W.real("bx0"), W.real("bx1")], "f"), Y=W.arr([1, 2, 3], "f"), Z=1)
         raised = False
